@@ -31,10 +31,34 @@ def weak_off(t):
     return None
 
 
+class RuleView(object):
+    """Lets another property's check re-decide these obligations under its own rule id (None = not its concern)."""
+
+    def __init__(self, rep, mapping):
+        self.rep, self.mapping = rep, mapping
+        self.samples, self.analysed = rep.samples, rep.analysed
+
+    def check(self, ok, rule, key, msg, **kw):
+        r = self.mapping.get(rule)
+        if r is not None:
+            kw.pop('sample', None)
+            self.rep.check(ok, r, '%s|%s' % (rule, key), msg, **kw)
+
+    def fail(self, rule, key, msg, **kw):
+        r = self.mapping.get(rule)
+        if r is not None:
+            self.rep.fail(r, '%s|%s' % (rule, key), msg, **kw)
+
+    def ok(self, rule, **kw):
+        pass
+
+    def broke(self, msg):
+        self.rep.broke(msg)
+
+
 def run(tier):
     rep = Report('C07', tier)
     prog = load_core('systemd')
-    fnf = 'lltdResponder/lltdBlock.c'
     rep.rule('R07.a', 'an observation is linked only when the real destination equals the own address; otherwise nothing is stored or allocated', floor=3)
     rep.rule('R07.b', 'de-duplication key is exactly (Ethernet source, real source)', floor=1)
     rep.rule('R07.c', 'field mapping frame -> node -> wire descriptor is type, real source, Ethernet source, Ethernet destination (identity, 20 bytes)', floor=20)
@@ -44,7 +68,17 @@ def run(tier):
     rep.rule('R07.g', 'count bookkeeping: linking adds exactly one, the recorded count is what the report uses', floor=2)
     rep.rule('R07.h', 'the list accepts at least 300 distinct observations between Queries (property quantifier)', floor=1)
     rep.rule('R07.i', 'every descriptor announced in the count field is serialised: the report loop stops only when all announced descriptors are copied (or the list ends); frame length = 34 + 20 x announced count', floor=2)
+    decide(rep, prog)
+    return finish(rep, 'other',
+                  'Decides the inductive ingredients of C07 on the interpreted code: filter, de-duplication key, exact field mapping frame->node->wire, sequence and destination rule, '
+                  "truncation with 'more' bit and retained remainder, release after reporting, count bookkeeping, capacity >= 300. "
+                  'The history-level statement (multiset equality of observations and reports for every history) follows from these by induction on the list and is not itself enumerated; '
+                  'the heap-shape invariant count = list length is the part not proved as a theorem.',
+                  'abstract interpretation with summary list node (weak object) + inductive loop summaries; origin analysis', exhaustive=False)
 
+
+def decide(rep, prog):
+    fnf = 'lltdResponder/lltdBlock.c'
     fs = FrameSetup(prog, mtu_ok=True)
     fs.keep_iter_states = True
     bpred = [(('in', 'frame', 24 + i), ('in', 'frame', 6 + i)) for i in range(6)]
@@ -116,28 +150,31 @@ def run(tier):
     # ---------------- reporter (parseQuery)
     ql = [l for l in stats['topo.query']['loops'] if l.startswith('parseQuery#')]
     wire_ok = False
+    report_loops = set()
     for l in ql:
         info = stats['topo.query']['loops'][l]
         for kind, trace, st in (info['iter_states'] or []):
-            cp = [e for e in trace if e[0] == 'memcpy' and str(e[1]).startswith('heap:parseQuery')]
-            if not cp:
+            # a completed iteration k must leave node bytes 0..19 at response offset 34 + 20k, however they got there
+            # (staging struct + memcpy, field-wise stores through a cast pointer, a byte loop): only the resulting
+            # buffer contents are examined, never the copying idiom
+            if kind != 'continue':
                 continue
-            e = cp[0]
-            buf = st.objs.get(e[1])
-            if buf is None:
+            bufs = [oid for oid, ob in st.objs.items() if oid.startswith('heap:parseQuery') and ob.live]
+            if len(bufs) != 1:
                 continue
-            base = e[2]
+            buf = st.objs[bufs[0]]
             k = ('sym', 'iter:' + l, 0, INF)
-            okb = st.same(base, ('add', ('mul', C(DESC), k), C(FIRST)))
-            rep.check(okb, 'R07.c', 'wire|position', 'descriptor k is written at offset %s, expected 34 + 20k' % short(base), function='parseQuery', file=fnf)
-            rep.check(st.same(e[5], C(DESC)), 'R07.c', 'wire|size', 'descriptor size is %s bytes, expected 20' % short(e[5]), function='parseQuery', file=fnf)
+            base = ('add', ('mul', C(DESC), k), C(FIRST))
+            got = [st.canon(mem.load_bytes(st, buf, ('add', base, C(r)), 1)[0]) for r in range(DESC)]
+            if not any(weak_off(b) is not None for b in got):
+                continue          # not the report loop (e.g. the release loop)
             for r in range(DESC):
-                b = st.canon(mem.load_bytes(st, buf, ('add', base, C(r)), 1)[0])
-                w = weak_off(b)
-                okr = w == r
-                rep.check(okr, 'R07.c', 'wire|byte%d' % r, 'wire descriptor byte %d comes from %s, expected node byte %d' % (r, short(b), r), function='parseQuery', file=fnf)
+                okr = weak_off(got[r]) == r
+                rep.check(okr, 'R07.c', 'wire|byte%d' % r, 'after iteration k of the report loop, response byte 34 + 20k + %d is %s, expected byte %d of the k-th observation'
+                          % (r, short(got[r]), r), function='parseQuery', file=fnf)
                 if okr:
                     wire_ok = True
+                    report_loops.add(l)
     # the report loop may only be left through its condition (all announced descriptors copied / list ended)
     for l in ql:
         info = stats['topo.query']['loops'][l]
@@ -206,8 +243,9 @@ def run(tier):
             want_len = ('add', ('mul', C(DESC), announced), C(FIRST))
             exact = st.same(S.length, want_len) or (st.prove_le(S.length, want_len) and st.prove_le(want_len, S.length))
             # (independent of which conjunct of the loop condition is written first: only 'not longer than announced' is required)
-            list_ended = (not exact) and any(str(k_).startswith('exit:parseQuery#') for k_ in st.tags) and st.prove_le(S.length, want_len)
-            # leaving because the list ended before `announced` nodes contradicts count = list length (not proved here): tolerated
+            # leaving because the list ended before `announced` nodes contradicts count = list length (not proved here): tolerated -
+            # but only when the loop really was left with its list cursor NULL, not through some other conjunct of its condition
+            list_ended = (not exact) and st.prove_le(S.length, want_len) and cursor_null_at_exit(st, stats['topo.query']['loops'], report_loops)
             rep.check(exact or list_ended, 'R07.i', 'length-vs-count',
                       'QueryResp announces %s descriptors but its length is %s, not 34 + 20 x that count' % (short(announced), short(st.canon(S.length))),
                       function='parseQuery', file=fnf, sample={'announced': short(announced), 'length': short(st.canon(S.length))} if len(rep.samples) < 40 else None)
@@ -253,22 +291,47 @@ def run(tier):
     if truncated_paths[0] and not nominal_seen[0]:
         rep.fail('R07.g', 'query|count-after-partial-nominal', 'no path of a partial report leaves count = count - reported', function='parseQuery', file=fnf)
     rep.analysed.update({'observer_paths': {'linked': linked, 'dropped': dropped, 'not_for_us': notforus}, 'query_paths': nq, 'node_from_frame': node_from_frame})
-    return finish(rep, 'other',
-                  'Decides the inductive ingredients of C07 on the interpreted code: filter, de-duplication key, exact field mapping frame->node->wire, sequence and destination rule, '
-                  "truncation with 'more' bit and retained remainder, release after reporting, count bookkeeping, capacity >= 300. "
-                  'The history-level statement (multiset equality of observations and reports for every history) follows from these by induction on the list and is not itself enumerated; '
-                  'the heap-shape invariant count = list length is the part not proved as a theorem.',
-                  'abstract interpretation with summary list node (weak object) + inductive loop summaries; origin analysis', exhaustive=False)
+
+
+def cursor_null_at_exit(st, loops, report_loops):
+    """Was the report loop left, on the path leading to final state `st`, with its list cursor NULL?  The cursor is the
+    local that pointed into the observation list when the iteration started; the exit snapshot is selected by the
+    state's `exit:<loop>` tag (index of the failing conjunct's exit state)."""
+    for l in report_loops:
+        info = loops[l]
+        snaps = info.get('exit_snaps') or []
+        start = info.get('iter_start')
+        if not snaps or start is None:
+            continue
+        n = st.tags.get('exit:' + l, 0 if len(snaps) == 1 else None)
+        if n is None or n >= len(snaps):
+            continue
+        cursors = []
+        for oid, ob in start.objs.items():
+            if not oid.startswith('L:'):
+                continue
+            for key, (w, t) in ob.cells.items():
+                t = start.canon(t)
+                if (t[0] == 'ptr' and t[1] == 'SEEN') or (t[0] == 'pset' and 'SEEN' in repr(t)):
+                    cursors.append((oid, key))
+        ex = snaps[n]
+        for oid, key in cursors:
+            ob = ex.objs.get(oid)
+            c = ob.cells.get(key) if ob is not None else None
+            if c is not None and ex.canon(c[1]) == ZERO:
+                return True
+    return False
 
 
 def dedupe_key_check(rep, loops, noff, rule, fnf):
     """An observation may be discarded as a duplicate only when an existing entry has the same Ethernet source AND the
     same real source: the (frame byte, node offset) pairs known equal when the search loop is left early."""
-    pl = [l for l in loops if l.startswith('parseProbe#')]
+    # the search loop is recognised by what it does (leaves early knowing frame bytes equal to bytes of an existing node),
+    # not by where it lives or how it leaves: in parseProbe or a helper, by `break` or by `return`
     keyset = None
-    for l in pl:
+    for l in loops:
         for kind, trace, st in (loops[l]['iter_states'] or []):
-            if kind != 'break':
+            if kind not in ('break', 'return'):
                 continue
             pairs = set()
             for t, r in st.eq.items():
@@ -277,6 +340,8 @@ def dedupe_key_check(rep, loops, noff, rule, fnf):
                     bb = st.canon(b)
                     if w is not None and bb[0] == 'in' and bb[1] == 'frame':
                         pairs.add((bb[2], w))
+            if not pairs:
+                continue          # some other loop left early
             keyset = pairs if keyset is None else (keyset | pairs)
     want = set((6 + i, noff['sourceAddr'] + i) for i in range(6)) | set((24 + i, noff['realSourceAddr'] + i) for i in range(6))
     if keyset is None:
